@@ -80,9 +80,12 @@ CLAIMED.update({
             "translate as per-term rounded products with exact overflow reporting, bounds contains all corners; ~1e6 forked-child "
             "requests incl. white-box static helpers replayed through the model, exact __int128 oracle.",
             TB + "For |w| >= 65536 the result is proved within 1/2 + 2^-15 unit of the exact quotient and FALSE only when the exact "
-            "quotient leaves int32 (no longer partial). Partial: the float entry points (f_invert, f_point, f_bounds, f_multiply, "
-            "to/from fixed) and pixman_transform_invert are proved over exact rationals (IEEE double rounding not modelled, *_partial) "
-            "and tied to the library by an exact __int128 verdict plus a per-request double-rounding bound. Known finding I1: exactly "
+            "quotient leaves int32 (no longer partial); the fixed<->double conversions are modelled with exact binary64 values and "
+            "compared literally (round to nearest, ties up, for every in-range double since fix 50296f6); the is_identity / is_scale / "
+            "is_int_translate / is_inverse predicates are specified and proved. Partial: f_invert, f_point, f_bounds, f_multiply, "
+            "f_scale/rotate/translate and pixman_transform_invert are proved over exact rationals (IEEE double rounding of the "
+            "arithmetic not modelled, *_partial) and tied to the library by an exact __int128 verdict plus a per-request "
+            "double-rounding bound. Known finding I1: exactly "
             "singular matrices with large entries are inverted with TRUE when the double determinant is inexact.", TECH, "DESIGN.md 6/C11"),
 })
 
